@@ -33,7 +33,7 @@ fn n_grid_c() -> u64 {
 
 // mixed batches: dead IDs in front of live ones, duplicates, same-deadline modification
 fn n_grid_d() -> u64 {
-    18
+    20
 }
 
 fn grid(_p: &EpParams) -> u64 {
@@ -444,7 +444,7 @@ async fn grid_c(p: &EpParams, case: u64) -> EpReport {
 /// accepted request must be treated as if it had been sent alone.
 async fn grid_d(p: &EpParams, case: u64) -> EpReport {
     let mut rep = EpReport::default();
-    let stream = matches!(case, 2 | 3 | 8 | 12 | 13 | 14 | 15);
+    let stream = matches!(case, 2 | 3 | 8 | 12 | 13 | 14 | 15 | 18 | 19);
     let mut su = setup(p, stream).await;
     if su.ids.len() != 2 {
         rep.inconclusive("setup did not hand out two messages");
@@ -524,6 +524,14 @@ async fn grid_d(p: &EpParams, case: u64) -> EpReport {
             if got.len() != 2 {
                 rep.viol("C05", "C05:nack-not-available", format!("ModifyAckDeadline([a2, a1, a2], 0) made {} of 2 messages available", got.len()));
             }
+        }
+        18 | 19 => {
+            // one delivery named twice with different seconds: an extension and then a nack (18) / a
+            // short extension and then a long one (19); the last entry stands, and nothing is left
+            // behind that fires later
+            let secs = if case == 18 { [20, 0] } else { [1, 600] };
+            label = if case == 18 { "stream [a1, a1] secs [20, 0]" } else { "stream [a1, a1] secs [1, 600]" };
+            do_modify(&mut su, "stream", &[a1.clone(), a1.clone()], &secs).await;
         }
         16 | 17 => {
             // a request with as many entries as there are leases, none of which is a lease: a late
